@@ -119,7 +119,8 @@ Section Catalogue.
     | 41 => exists stf rs, the_run stf rs                          (* every transaction executes *)
     | 42 => forall stf rs, the_run stf rs -> deps_ok [] txs rs
     | 43 => forall stf rs, the_run stf rs -> h_gas_used h = total_gas rs
-    | 44 => forall stf rs, the_run stf rs -> h_receipts_root h = root_of_receipts rs
+    | 44 => forall stf rs, the_run stf rs ->
+            h_receipts_root h = root_of_receipts rs \/ b_rr_fix b = Some (root_of_receipts rs)  (* the correction table *)
     | 45 => pv_pos pv = true -> forall stf rs, the_run stf rs -> sanity stf = true
     | 46 => pv_pos pv = true -> forall stf rs, the_run stf rs -> rewards (ctx_of_header parent h) stf <> None
     | 47 => forall stf rs, the_run stf rs ->
